@@ -85,6 +85,33 @@ def run(root, tag, seed, n_req, script=()):
         c.sc.stop(); shutil.rmtree(root, ignore_errors=True)
     return {'requests': reqs, 'hits': hits, 'misses': misses, 'fails': fails[:3], 'samples': [' ; '.join(trace[:4])]}
 
+def codegen_options(root, tag):
+    """codegen options that change what rustc leaves in --out-dir: each command line twice (miss, then hit); the directory must hold the same
+    files with the same bytes as after a direct run (temporary directories with random names aside)"""
+    c = Crate(root, tag); fails = []; reqs = 0; samples = []
+    def state(d): return {f: hashlib.sha256(open(os.path.join(d, f), 'rb').read()).hexdigest()[:12] for f in sorted(os.listdir(d)) if os.path.isfile(os.path.join(d, f))}
+    scen = [('debuginfo', ['-g']), ('split_debuginfo_packed', ['-g', '-C', 'split-debuginfo=packed']), ('split_debuginfo_unpacked', ['-g', '-C', 'split-debuginfo=unpacked']), ('save_temps', ['-C', 'save-temps']),
+            ('opt2', ['-C', 'opt-level=2']), ('line_tables', ['-C', 'debuginfo=1']), ('strip', ['-g', '-C', 'strip=debuginfo']), ('no_bitcode', ['-C', 'embed-bitcode=no']), ('cgu3', ['-C', 'codegen-units=3'])]
+    c.sc.start()
+    try:
+        for name, extra in scen:
+            argv = c.argv(0) + extra; out = os.path.join(c.w, 'out'); trace = []
+            shutil.rmtree(out); os.makedirs(out)
+            d = subprocess.run(argv, cwd=c.w, env=dict(os.environ, **c.env), capture_output=True); want = (d.returncode, state(out))
+            for i in range(2):
+                shutil.rmtree(out); os.makedirs(out)
+                b = counts(c.sc.stats() or {})
+                r = c.sc.compile(argv, c.w, env=c.env, timeout=300); got = (r.returncode, state(out)); reqs += 1
+                a = counts(c.sc.stats() or {}); cls = 'hit' if a.get('cache_hits', 0) > b.get('cache_hits', 0) else ('miss' if a.get('cache_misses', 0) > b.get('cache_misses', 0) else 'other')
+                trace.append(f'codegen options {name} #{i}: {" ".join(extra)} -> rc={got[0]} {cls} files {sorted(got[1])}')
+                if got != want:
+                    names = sorted(set(got[1]) ^ set(want[1])) or sorted(k for k in got[1] if got[1][k] != want[1].get(k))
+                    fails.append({'kind': 'rustc_differs_from_direct', 'detail': f'codegen options {name}: the files in --out-dir differ from the direct rustc run ({cls}): {names[:3]} (direct run leaves {sorted(want[1])})', 'ops': list(trace)}); break
+            if len(samples) < 1: samples.append(' ; '.join(trace))
+    finally:
+        c.sc.stop(); shutil.rmtree(root, ignore_errors=True)
+    return {'requests': reqs, 'codegen_scenarios': len(scen), 'fails': fails, 'samples': samples}
+
 def extern_alias(root, tag):
     """F-C05-a witness on the real binary: swap which crate name is bound to which rlib"""
     shutil.rmtree(root, ignore_errors=True); w = os.path.join(root, 'w'); os.makedirs(os.path.join(w, 'out'))
